@@ -51,6 +51,13 @@ def nameOk (s : String) : Bool :=
 
 def afterColon (s : String) (n : Nat) : String := (s.drop n).toString
 
+/-- the size token of a plain-struct probe type: 1 … 41, no leading zero -/
+def parseProbe (s : String) : Option Nat :=
+  if s.isEmpty || s.length > 2 || !s.all Char.isDigit || s.startsWith "0" then none
+  else match s.toNat? with
+    | some n => if 1 ≤ n ∧ n ≤ maxProbe then some n else none
+    | none => none
+
 def parseSpec (st : Store) (s : String) : Option Scalar :=
   if s.startsWith "i:" then (parseI64 (afterColon s 2)).map .int
   else if s.startsWith "f:" then
@@ -67,14 +74,14 @@ def parseSpec (st : Store) (s : String) : Option Scalar :=
   else if s.startsWith "u:" then
     let n := afterColon s 2
     if nameOk n then some (.typ n.toUTF8.toList) else none
-  else if s.startsWith "p" && s.length ≥ 3 && (s.toList.getD 2 ' ') = ':' then
-    let kc := s.toList.getD 1 ' '
-    if '0' ≤ kc ∧ kc.toNat < '0'.toNat + probeSizes.length then
-      let k := kc.toNat - '0'.toNat
-      match parseHex (afterColon s 3) with
-      | some bs => if bs.length = probeSizes.getD k 0 then some (.raw k bs) else none
-      | none => none
-    else none
+  else if s.startsWith "p" then
+    -- p<n>:<hex>: the plain struct of n bytes, n = 1 … 41
+    match (s.drop 1).toString.splitOn ":" with
+    | [ns, hex] =>
+      match parseProbe ns, parseHex hex with
+      | some k, some bs => if bs.length = rawSize k then some (.raw k bs) else none
+      | _, _ => none
+    | _ => none
   else if s.startsWith "r:" || s.startsWith "b:" then
     match parseId (afterColon s 2) with
     | some t => if isLive st t then some (.ptr (s.startsWith "b:") t) else none
@@ -84,12 +91,10 @@ def parseSpec (st : Store) (s : String) : Option Scalar :=
 def tyCode : Ty → String
   | .int => "I" | .float => "F" | .str => "S" | .typ => "T" | .ref => "r" | .box => "b" | .raw k => toString k
 
-/-- element / key / value type codes: Int, String, Float, and the plain-struct probe types by their digit -/
+/-- element / key / value type codes: Int, String, Float, and the plain-struct probe types by their size -/
 def parseTy (s : String) (allowFloat : Bool) : Option Ty :=
   if s = "I" then some .int else if s = "S" then some .str else if s = "F" && allowFloat then some .float
-  else match s.toList with
-    | [c] => if '0' ≤ c ∧ c.toNat < '0'.toNat + probeSizes.length then some (.raw (c.toNat - '0'.toNat)) else none
-    | _ => none
+  else (parseProbe s).map .raw
 
 /-- Tree key / value types are kept to sizes that are multiples of 8 (known finding KF-C19-tree-misaligned-header) -/
 def treeTyOk : Ty → Bool
@@ -120,8 +125,8 @@ def dumpVal (st : Store) : Val → String
   | .seq .array ety items => s!"A:{tyCode ety}[{",".intercalate (items.map dumpScalar)}]"
   | .seq .list ety items => s!"L:{tyCode ety}[{",".intercalate (items.map dumpScalar)}]"
   | .tuple ids => s!"U[{",".intercalate (ids.map fun i => match st.scalar i with | some s => dumpScalar s | none => "?")}]"
-  | .table kt vt t => s!"T:{tyCode kt}{tyCode vt}\{{t.nslots}|{dumpSlots t}}"
-  | .tree kt vt t => s!"R:{tyCode kt}{tyCode vt}\{{",".intercalate (t.toList.map fun e => s!"{dumpScalar e.1}={dumpScalar e.2}")}}"
+  | .table kt vt t => s!"T:{tyCode kt},{tyCode vt}\{{t.nslots}|{dumpSlots t}}"
+  | .tree kt vt t => s!"R:{tyCode kt},{tyCode vt}\{{",".intercalate (t.toList.map fun e => s!"{dumpScalar e.1}={dumpScalar e.2}")}}"
 
 /-- model addresses: injective in the object id -/
 def addr (t : Nat) : Bytes :=
@@ -262,6 +267,8 @@ structure Stats where
   eqZero : Nat := 0
   copies : Nat := 0
   swaps : Nat := 0
+  swapMixed : Nat := 0        -- swaps / sorts in which `memswap` as extracted did not exchange the two structs
+  sorts : Nat := 0
   displaced : Nat := 0
   treeStates : Nat := 0
   treeBad : Nat := 0
@@ -510,7 +517,12 @@ def step (st : Store) (stats : Stats) (toks : List String) : IO (Store × Stats)
             | .tree _ _ _, .tree _ _ _ => true
             | _, _ => false
           if !ok then bad else
-          let st := swapObjs st x y
+          -- `memswap` as extracted from the source, run on the two structs
+          match swapObjs st x y with
+          | none =>
+            IO.println s!"O swap {x} {y} the-structs-hold-a-mixture"
+            return (st, { stats with swaps := stats.swaps + 1, swapMixed := stats.swapMixed + 1 })
+          | some st =>
           match st.get x, st.get y with
           | some nx, some ny =>
             IO.println s!"O swap {x} {y} ok va={dumpVal st nx.val} ha={hashStr st nx.val} vb={dumpVal st ny.val} hb={hashStr st ny.val}"
@@ -523,6 +535,22 @@ def step (st : Store) (stats : Stats) (toks : List String) : IO (Store × Stats)
     if op = "H" then
       match parseId a with
       | some id => if isLive st id then do observe st op id none; return (st, stats) else bad
+      | none => bad
+    else if op = "sort" then
+      match parseId a with
+      | some id =>
+        match st.get id with
+        | some ⟨_, .seq .array ety items⟩ =>
+          if items.any (fun s => match s with | .float b => floatIsNaN b | _ => false) then bad else
+          -- the quicksort of src/Array.c; every element move is `swap` = `memswap` as extracted, on the element structs
+          match arraySort addr items with
+          | some items' =>
+            let st := setVal st id (.seq .array ety items'); observe st op id none
+            return (st, { stats with sorts := stats.sorts + 1 })
+          | none =>
+            IO.println s!"O sort {id} the-structs-hold-a-mixture"
+            return (st, { stats with sorts := stats.sorts + 1, swapMixed := stats.swapMixed + 1 })
+        | _ => bad
       | none => bad
     else if op = "pop" then stepPop st stats op a none
     else if op = "clear" then stepResize st stats op a none
@@ -750,4 +778,4 @@ def main (args : List String) : IO Unit := do
         stats := { stats with unsized := stats.unsized + (if items.all (sizedB (tyWords ety)) then 0 else 1) }
       | _ => pure ()
   IO.println s!"S float_pairs={stats.floatPairs} float_src_ne_model={stats.floatSrcNeModel} float_sf_ne_hw={stats.floatSfNeHw} float_near_pairs={stats.floatNear} self_assigns={stats.selfAssigns} lookups={stats.lookups}"
-  IO.println s!"S eq_pairs={stats.eqPairs} eq_zero={stats.eqZero} copies={stats.copies} swaps={stats.swaps} displaced_tables={stats.displaced} tree_states={stats.treeStates} tree_not_descending={stats.treeBad} table_states={stats.tableStates} table_keys_not_distinct={stats.tableBad} unsized_states={stats.unsized} tree_relocations={stats.treeReloc} wide_moves={stats.wideMoves}"
+  IO.println s!"S eq_pairs={stats.eqPairs} eq_zero={stats.eqZero} copies={stats.copies} swaps={stats.swaps} sorts={stats.sorts} swap_not_exchanging={stats.swapMixed} memswap_shape_ok={if swapOk CelloGen.Hash.memswapProg then 1 else 0} displaced_tables={stats.displaced} tree_states={stats.treeStates} tree_not_descending={stats.treeBad} table_states={stats.tableStates} table_keys_not_distinct={stats.tableBad} unsized_states={stats.unsized} tree_relocations={stats.treeReloc} wide_moves={stats.wideMoves}"
